@@ -57,10 +57,17 @@ func cmdlinePhase(env *Env, arts []*Artifact) {
 		if a.Content != nil || seenFmt[a.Fmt] || len(a.Signed) > 4<<20 {
 			continue
 		}
-		// the first covered byte whose flip the library verifier rejects
-		var bad []byte
+		// tampered copies, each confirmed rejected by the library verifier: the
+		// first covered byte with one bit flipped; the first bytes overwritten
+		// with a compression magic (gzip, xz), which sends the command down its
+		// decompression path
+		type tamper struct {
+			name string
+			data []byte
+		}
+		var tampers []tamper
 		tried := 0
-		for off := 0; off < len(a.Signed) && tried < 64 && bad == nil; off++ {
+		for off := 0; off < len(a.Signed) && tried < 64 && len(tampers) == 0; off++ {
 			if a.Map.Static(off).Class != Protected {
 				continue
 			}
@@ -68,13 +75,29 @@ func cmdlinePhase(env *Env, arts []*Artifact) {
 			mut := append([]byte{}, a.Signed...)
 			mut[off] ^= 0x01
 			if res := w.verify(env, a, mut, nil); res.Outcome == "rejected" {
-				bad = mut
+				tampers = append(tampers, tamper{"tampered", mut})
 			}
 		}
-		if bad == nil {
+		if len(tampers) == 0 {
 			run.Outcome("cmdline:no-tampered-copy:" + a.Fmt)
 			continue
 		}
+		for _, mg := range []struct {
+			name  string
+			magic []byte
+		}{{"gzip-magic-at-0", []byte{0x1f, 0x8b}}, {"xz-magic-at-0", []byte("\xfd7zXZ\x00")}} {
+			if len(a.Signed) <= len(mg.magic) || bytes.HasPrefix(a.Signed, mg.magic) {
+				continue
+			}
+			mut := append([]byte{}, a.Signed...)
+			copy(mut, mg.magic)
+			if res := w.verify(env, a, mut, nil); res.Outcome == "rejected" || res.Outcome == "not-signed" {
+				tampers = append(tampers, tamper{mg.name, mut})
+			} else {
+				run.Outcome("cmdline:library-verdict-on-" + mg.name + ":" + res.Outcome)
+			}
+		}
+		bad := tampers[0].data
 		seenFmt[a.Fmt] = true
 		dir := env.scratch("cmdline-" + a.Fmt)
 		if err := os.MkdirAll(dir, 0o755); err != nil {
@@ -82,7 +105,9 @@ func cmdlinePhase(env *Env, arts []*Artifact) {
 		}
 		ext := filepath.Ext(a.FileName)
 		stem := strings.TrimSuffix(a.FileName, ext)
-		file := func(kind string, i int) string { return filepath.Join(dir, fmt.Sprintf("%s-%s%d%s", stem, kind, i, ext)) }
+		file := func(kind string, i int) string {
+			return filepath.Join(dir, fmt.Sprintf("%s-%s%d%s", stem, kind, i, ext))
+		}
 		for i := 1; i <= 3; i++ {
 			if err := os.WriteFile(file("good", i), a.Signed, 0o644); err != nil {
 				panic(err)
@@ -152,6 +177,33 @@ func cmdlinePhase(env *Env, arts []*Artifact) {
 				}
 				if s[i] && strings.Contains(line, ": OK") {
 					violation("cmdline:tampered-file-reported-ok:"+a.Fmt, desc+": "+line, replay)
+				}
+			}
+		}
+		// the other tampered copies: alone, before and after a good file
+		for _, tp := range tampers[1:] {
+			tf := filepath.Join(dir, fmt.Sprintf("%s-%s%s", stem, tp.name, ext))
+			if err := os.WriteFile(tf, tp.data, 0o644); err != nil {
+				panic(err)
+			}
+			for _, files := range [][]string{{tf}, {file("good", 1), tf}, {tf, file("good", 1)}} {
+				rc, so, se, timedOut := runRelic(dir, append(append([]string{"verify"}, trust...), files...)...)
+				run.Eval(1)
+				run.AddTransitions(1)
+				var names []string
+				for _, f := range files {
+					names = append(names, strings.TrimSuffix(strings.TrimPrefix(filepath.Base(f), stem+"-"), ext))
+				}
+				desc := fmt.Sprintf("%s: relic verify [%s]: exit %d, output %q", a.ID(), strings.Join(names, " "), rc, short(so+se, 160))
+				replay := map[string]any{"artifact": a.ID(), "sequence": names, "stdout": short(so, 600), "stderr": short(se, 300)}
+				run.Distinct("cmdline|" + a.Fmt + "|" + strings.Join(names, ","))
+				switch {
+				case timedOut:
+					violation("cmdline:verify-hangs:"+a.Fmt, desc, replay)
+				case rc == 0:
+					violation("cmdline:exit-0-although-a-file-does-not-verify:"+tp.name, desc+" (the library verifier rejects that file)", replay)
+				default:
+					run.Outcome("cmdline:exit-status-agrees")
 				}
 			}
 		}
